@@ -5,7 +5,7 @@ Only code that *is* a table or a token template is translated; control flow is m
 (coq/Model) and tied by the correspondence run.  If a construct is not recognised the translator
 raises TranslateError: the check then reports the tie as broken instead of guessing.
 """
-import os, re, sys, json
+import os, re, sys, json, collections
 
 REPO = os.environ.get('O2O_REPO', '/repo')
 OUT = os.path.join(os.path.dirname(os.path.abspath(__file__)), '..', 'coq', 'Gen')
@@ -671,6 +671,60 @@ def gen_macros():
 
 
 GENERATORS['Macros.v'] = gen_macros
+
+
+
+SITE_PATTERNS = [
+    ('panic', r'\bpanic!\s*\('), ('unreachable', r'\bunreachable!\s*\('), ('todo', r'\btodo!\s*\('), ('unimplemented', r'\bunimplemented!\s*\('),
+    ('unwrap', r'\.unwrap\s*\(\s*\)'), ('expect', r'\.expect\s*\('), ('parse_quote', r'\bparse_quote!\s*[\(\{]'),
+    ('assert', r'\b(?:debug_)?assert(?:_eq|_ne)?!\s*\('),
+]
+
+
+def gen_sites():
+    """every panic-capable site of the expansion code: (file, enclosing fn, kind, detail, ordinal within the fn)"""
+    sites = []
+    for f in ('ast.rs', 'attr.rs', 'expand.rs', 'validate.rs'):
+        src = strip_comments(read('o2o-impl/src/' + f))
+        # the #[cfg(test)] module / tests are not part of the expansion
+        src = re.split(r'#\[cfg\(test\)\]', src)[0]
+        for fn, body in split_fns(src):
+            per = collections.Counter()
+            found = []
+            for kind, rx in SITE_PATTERNS:
+                for m in re.finditer(rx, body):
+                    detail = ''
+                    if kind in ('unreachable', 'panic'):
+                        mm = re.match(r'\s*"((?:[^"\\]|\\.)*)"', body[m.end():])
+                        detail = mm.group(1)[:40] if mm else ''
+                    elif kind == 'unwrap':
+                        # the receiver expression, shortened: what is unwrapped
+                        pre = body[max(0, m.start() - 60):m.start()]
+                        mm = re.search(r'([\w\.\[\]]+(?:\([^()]*\))?)$', pre.replace('\n', ' '))
+                        detail = re.sub(r'\s+', '', mm.group(1))[-40:] if mm else ''
+                    found.append((m.start(), kind, detail))
+            # indexing expressions `x[expr]` (not attributes, not types, not slice patterns / array literals)
+            nostr = re.sub(r'"(?:[^"\\]|\\.)*"', lambda mm: '"' + ' ' * (len(mm.group(0)) - 2) + '"', body)
+            for m in re.finditer(r'(?<![#!\w])(\w+(?:\.\w+)*)\s*\[\s*([^\]\[;]+?)\s*\]', nostr):
+                recv, idx = m.group(1), m.group(2)
+                if recv in ('vec', 'quote', 'matches', 'cfg', 'derive', 'allow') or re.fullmatch(r'[A-Z]\w*', recv) or recv in ('mut', 'let', 'in', 'return'):
+                    continue
+                if re.fullmatch(r'bool|u8|\d+', idx) and ';' in body[m.start():m.end() + 4]:
+                    continue
+                found.append((m.start(), 'index', re.sub(r'\s+', '', '%s[%s]' % (recv, idx))[:40]))
+            found.sort()
+            for _, kind, detail in found:
+                per[(kind, detail)] += 1
+                sites.append((f, fn, kind, detail, per[(kind, detail)]))
+    lines = ['(* GENERATED by tools/translate.py: every panic-capable site of o2o-impl/src/{ast,attr,expand,validate}.rs. *)',
+             'From Coq Require Import List String.', 'Import ListNotations.', 'Open Scope string_scope.', '',
+             '(* (file, enclosing fn, kind, detail, ordinal of this (kind, detail) within the fn) *)',
+             'Definition gen_sites : list (string * string * string * string * nat) :=', '  [']
+    lines.append(';\n'.join('   (%s, %s, %s, %s, %d)' % (coq_str(a), coq_str(b), coq_str(c), coq_str(d), e) for a, b, c, d, e in sites))
+    lines.append('  ].')
+    return '\n'.join(lines) + '\n', {'sites': len(sites)}
+
+GENERATORS['Sites.v'] = gen_sites
 
 
 def main():
